@@ -160,27 +160,27 @@ theorem runTxs_append (env : Env) :
     exact runTxs_append env pre post _ _ _
 
 /-- the state x/gov's EndBlocker leaves does not depend on the results collected so far -/
-theorem runGov_state_acc (env : Env) : ∀ (gov : List (List Msg)) (s : App) (a1 a2 : List TxR),
-    (runGov env gov s a1).2 = (runGov env gov s a2).2
+theorem runGov_state_acc (env : Env) (sg : Signer) : ∀ (gov : List (List Msg)) (s : App) (a1 a2 : List TxR),
+    (runGov env sg gov s a1).2 = (runGov env sg gov s a2).2
   | [], _, _, _ => rfl
   | ms :: rest, s, a1, a2 => by
     simp only [runGov]
-    cases handleList env.lim s Signer.admin ms with
-    | ok s' => exact runGov_state_acc env rest s' _ _
-    | err e => exact runGov_state_acc env rest s _ _
-    | unknown => exact runGov_state_acc env rest s _ _
+    cases handleList env.lim s sg ms with
+    | ok s' => exact runGov_state_acc env sg rest s' _ _
+    | err e => exact runGov_state_acc env sg rest s _ _
+    | unknown => exact runGov_state_acc env sg rest s _ _
 
 /-- **C06c**: the block with the failing transaction commits the same state and returns the same validator
     updates as the block without it (all transactions before it, and all after it by other signers, are
     untouched; so are the proposals x/gov executes at the end of the block) -/
-theorem c06_block (env : Env) (s : App) (dt : Int) (votes : List Vote) (evid : List Evid) (gov : List (List Msg))
+theorem c06_block (env : Env) (s : App) (dt : Int) (votes : List Vote) (evid : List Evid) (gov : List (List Msg)) (ga : Bool)
     (pre post : List Tx) (tx : Tx)
     (hsig : ∀ t ∈ post, t.signer ≠ tx.signer)
     (hfail : ∀ s1 incs1, (runTx env s1 incs1 tx).1 ≠ .ok) :
-    (block env s ⟨dt, votes, pre ++ tx :: post, evid, gov⟩).map (fun r => (r.1.updates, r.2)) =
-    (block env s ⟨dt, votes, pre ++ post, evid, gov⟩).map (fun r => (r.1.updates, r.2)) := by
+    (block env s ⟨dt, votes, pre ++ tx :: post, evid, gov, ga⟩).map (fun r => (r.1.updates, r.2)) =
+    (block env s ⟨dt, votes, pre ++ post, evid, gov, ga⟩).map (fun r => (r.1.updates, r.2)) := by
   unfold block beforeEnd
-  simp only
+  simp only [govSigner]
   cases slashingBegin votes { s with height := s.height + 1, time := s.time + dt } with
   | error h => rfl
   | ok s0 =>
@@ -197,9 +197,9 @@ theorem c06_block (env : Env) (s : App) (dt : Int) (votes : List Vote) (evid : L
       have := c06_runTxs env tx post (runTxs env pre s2 [] []).2 (preIncs env pre s2 []) (runTxs env pre s2 [] []).1
         (hfail _ _) hsig
       rw [this]
-      rw [runGov_state_acc env gov _ (runTxs env (tx :: post) (runTxs env pre s2 [] []).2 (preIncs env pre s2 []) (runTxs env pre s2 [] []).1).1
+      rw [runGov_state_acc env _ gov _ (runTxs env (tx :: post) (runTxs env pre s2 [] []).2 (preIncs env pre s2 []) (runTxs env pre s2 [] []).1).1
         (runTxs env post (runTxs env pre s2 [] []).2 (preIncs env pre s2 []) (runTxs env pre s2 [] []).1).1]
-      cases stakingEndBlock (runGov env gov (runTxs env post (runTxs env pre s2 [] []).2 (preIncs env pre s2 []) (runTxs env pre s2 [] []).1).2
+      cases stakingEndBlock (runGov env _ gov (runTxs env post (runTxs env pre s2 [] []).2 (preIncs env pre s2 []) (runTxs env pre s2 [] []).1).2
           (runTxs env post (runTxs env pre s2 [] []).2 (preIncs env pre s2 []) (runTxs env pre s2 [] []).1).1).2 with
       | error h => rfl
       | ok r => rfl
